@@ -210,6 +210,8 @@ def main(argv=None):
                     for reg in pr["in_region"]:
                         known_seen.setdefault(reg, {"region": pr["in_region"], "cex": pr["inputs"], "failing": pr["failing"], "reproduced": True})
                     continue
+                if os.environ.get("VF_VERBOSE_PROBES"):
+                    print(f"  probe failure {h.name} [{pr['label']}] {x['choices']} {pr.get('failing')}", flush=True)
                 # the real build violates the property on a probe input: reproduced by construction
                 tot["sat_reproduced"] += 1
                 hstat["violations"] += 1
